@@ -2,12 +2,14 @@ module verif/harness
 
 go 1.21
 
-require gosrc.io/xmpp v0.0.0
+require (
+	gosrc.io/xmpp v0.0.0
+	nhooyr.io/websocket v1.6.5
+)
 
 require (
 	github.com/google/uuid v1.1.1 // indirect
 	golang.org/x/xerrors v0.0.0-20190717185122-a985d3407aa7 // indirect
-	nhooyr.io/websocket v1.6.5 // indirect
 )
 
 replace gosrc.io/xmpp => /repo
